@@ -18,6 +18,7 @@ import (
 	"fmt"
 	"io"
 	"net/http"
+	"strconv"
 	"strings"
 	"time"
 
@@ -111,17 +112,48 @@ func NewChunkReader(ctx *fiber.Ctx, r io.Reader, authdata AuthData, region, secr
 		return nil, s3err.GetAPIError(s3err.ErrTrailerHeaderNotSupported)
 	}
 
+	decodedLength, err := strconv.ParseInt(decContLength, 10, 64)
+	if err != nil || decodedLength < 0 {
+		return nil, s3err.GetAPIError(s3err.ErrMissingDecodedContentLength)
+	}
+
+	var cr io.Reader
 	switch contentSha256 {
 	case payloadTypeStreamingUnsignedTrailer:
-		return NewUnsignedChunkReader(r, checksumType, debug)
+		cr, err = NewUnsignedChunkReader(r, checksumType, debug)
 	case payloadTypeStreamingSignedTrailer:
-		return NewSignedChunkReader(r, authdata, region, secret, date, checksumType, debug)
+		cr, err = NewSignedChunkReader(r, authdata, region, secret, date, checksumType, debug)
 	case payloadTypeStreamingSigned:
-		return NewSignedChunkReader(r, authdata, region, secret, date, "", debug)
+		cr, err = NewSignedChunkReader(r, authdata, region, secret, date, "", debug)
 	// return not supported for:
 	// - STREAMING-AWS4-ECDSA-P256-SHA256-PAYLOAD
 	// - STREAMING-AWS4-ECDSA-P256-SHA256-PAYLOAD-TRAILER
 	default:
 		return nil, getPayloadTypeNotSupportedErr(contentSha256)
 	}
+	if err != nil {
+		return nil, err
+	}
+
+	return &decodedLengthReader{r: cr, declared: decodedLength}, nil
+}
+
+// decodedLengthReader makes sure the decoded object data is exactly as long as
+// the X-Amz-Decoded-Content-Length header announced. The backends size (and
+// preallocate) the object from that header; without the comparison a stream
+// that decodes to fewer bytes was stored zero padded to the announced length,
+// and one that decodes to more bytes was stored as is.
+type decodedLengthReader struct {
+	r        io.Reader
+	declared int64
+	n        int64
+}
+
+func (d *decodedLengthReader) Read(p []byte) (int, error) {
+	n, err := d.r.Read(p)
+	d.n += int64(n)
+	if d.n > d.declared || (err == io.EOF && d.n != d.declared) {
+		return n, s3err.GetAPIError(s3err.ErrIncompleteBody)
+	}
+	return n, err
 }
